@@ -68,6 +68,24 @@ Section Spec.
   Definition lay_record (l : lay) (r : bytes) : lay :=
     lay_write (length r) (lay_next l) true [] r.
 
+  (* the same loop, returning the pending chunk unfinalised (layout, first flag, payload so
+     far): what a further Write call continues from *)
+  Fixpoint lay_write_st (fuel : nat) (l : lay) (first : bool) (d q : bytes) : lay * bool * bytes :=
+    match q with
+    | [] => (l, first, d)
+    | _ :: _ =>
+        match fuel with
+        | O => (l, first, d)
+        | S fuel' =>
+            let full := bsize (l_open l) + hs p + lenN d =? bs p in
+            let l1 := if full then lay_close (lay_push l (mk (nonlast_type first) d)) else l in
+            let f1 := if full then false else first in
+            let d1 := if full then [] else d in
+            let n := N.min (bs p - (bsize (l_open l1) + hs p + lenN d1)) (lenN q) in
+            lay_write_st fuel' l1 f1 (d1 ++ takeN n q) (dropN n q)
+        end
+    end.
+
   Definition layout (rs : list bytes) : lay := fold_left lay_record rs lay_empty.
 
   Definition render_closed (cs : list chunk) : bytes :=
